@@ -134,6 +134,7 @@ func checkC12(r *Run) propMeta {
 	checkDedupeAgainstResult(r, gp)
 	checkEntityMergeDelegates(r, gp)
 	checkAccessorsPure(r, "C12-R12-accessors-pure", gp, "Properties")
+	checkDeltaSlotPaths(r, "C12-R13-delta-slot-on-every-path", r.Pkg("drivers/pg"), r.Pkg("cypher/models/pgsql"), r.Pkg("drivers/neo4j"))
 	checkEntityNilProperties(r, gp)
 	r.Floor("C12-R1-effect-summary", 5)
 	r.Floor("C12-R7-kinds-no-in-place-edit", 5)
